@@ -24,7 +24,7 @@ static int relJmp() { return CppUTestVerif_JmpBufIndex() - jmpBase; }
 struct PhaseS { std::vector<std::pair<int,int> > sets; std::vector<std::string> evs; };
 static int g_rep = 0;   // current repetition (1-based), set by the output callback
 static const std::string& evNow(const PhaseS& ph) { size_t i = g_rep < 1 ? 0 : (size_t) g_rep - 1; if (i >= ph.evs.size()) i = ph.evs.size() - 1; return ph.evs[i]; }
-struct TestS { std::string g, n; bool ign; PhaseS ph[3]; };
+struct TestS { std::string g, n; bool ign; PhaseS ph[3]; std::vector<std::pair<std::string, std::string> > after; };
 struct FilterS { std::string pat; bool strict, invert; };
 struct PluginS { std::string name; bool enabled, err; };
 struct Prog {
@@ -147,6 +147,14 @@ public:
             fprintf(out, "%s%d", l > 1 ? "," : "", v);
         }
         fprintf(out, "]}\n");
+        // plugins installed / removed while the run is going on (between this test and the next one)
+        if (lastTest >= 1 && (size_t) lastTest <= P->tests.size()) {
+            const TestS& t = P->tests[(size_t) lastTest - 1];
+            for (size_t k = 0; k < t.after.size(); k++) {
+                if (t.after[k].first == "install") theRegistry->installPlugin(new RecPlugin(t.after[k].second, false));    // (not freed: it may stay in the chain)
+                else theRegistry->removePluginByName(t.after[k].second.c_str());
+            }
+        }
     }
     void printCurrentGroupEnded(const TestResult& r) CPPUTEST_OVERRIDE
     { TestOutput::printCurrentGroupEnded(r); fprintf(out, "{\"op\":\"groupEnd\",\"t\":%d}\n", lastTest); }
@@ -260,7 +268,12 @@ static void emitProg()
 {
     fprintf(out, "{\"op\":\"prog\",\"reg\":[");
     for (size_t i = 0; i < P->tests.size(); i++)
-        fprintf(out, "%s{\"g\":%s,\"n\":%s,\"ign\":%s}", i ? "," : "", chars(P->tests[i].g).c_str(), chars(P->tests[i].n).c_str(), P->tests[i].ign ? "true" : "false");
+    {
+        fprintf(out, "%s{\"g\":%s,\"n\":%s,\"ign\":%s,\"after\":[", i ? "," : "", chars(P->tests[i].g).c_str(), chars(P->tests[i].n).c_str(), P->tests[i].ign ? "true" : "false");
+        for (size_t k = 0; k < P->tests[i].after.size(); k++)
+            fprintf(out, "%s{\"op\":%s,\"name\":%s}", k ? "," : "", vh_jstr(P->tests[i].after[k].first).c_str(), vh_jstr(P->tests[i].after[k].second).c_str());
+        fprintf(out, "]}");
+    }
     fprintf(out, "],\"script\":[");
     for (size_t i = 0; i < P->tests.size(); i++) {
         fprintf(out, "%s{", i ? "," : "");
@@ -390,6 +403,10 @@ int main(int argc, char** argv)
         else if (f[0] == "test" && f.size() >= 10) {
             TestS t; t.g = f[1]; t.n = f[2]; t.ign = f[3] == "1";
             for (int p = 0; p < 3; p++) { t.ph[p].sets = parseSets(f[4 + 2 * (size_t) p]); t.ph[p].evs = vh_split(f[5 + 2 * (size_t) p], '/'); }
+            if (f.size() > 10 && f[10] != "-" && !f[10].empty()) {
+                std::vector<std::string> ops = vh_split(f[10], ',');
+                for (size_t k = 0; k < ops.size(); k++) { std::vector<std::string> q = vh_split(ops[k], ':'); if (q.size() == 2) t.after.push_back(std::make_pair(q[0], q[1])); }
+            }
             P->tests.push_back(t);
         }
         else if (f[0] == "run") runProgram();
